@@ -347,15 +347,85 @@ func staleRefs(root *parser.Thrift) []string {
 				out = append(out, fmt.Sprintf("%s: type %s not defined in include %q", where, ty.Name, inc.Path))
 			}
 		}
+		// value references (constant values, field defaults): an identifier resolved into an include carries the
+		// include's index in Extra.Index; it must be the include whose prefix is written and that defines the name
+		var chkVal func(where string, v *parser.ConstValue)
+		chkVal = func(where string, v *parser.ConstValue) {
+			if v == nil || v.TypedValue == nil {
+				return
+			}
+			tv := v.TypedValue
+			for _, e := range tv.List {
+				chkVal(where, e)
+			}
+			for _, e := range tv.Map {
+				chkVal(where, e.Key)
+				chkVal(where, e.Value)
+			}
+			if tv.Identifier == nil || v.Extra == nil || v.Extra.Index < 0 {
+				return
+			}
+			id := *tv.Identifier
+			parts := strings.Split(id, ".")
+			idx := int(v.Extra.Index)
+			if idx >= len(t.Includes) {
+				out = append(out, fmt.Sprintf("%s: value %s Extra.Index %d out of range (%d includes)", where, id, idx, len(t.Includes)))
+				return
+			}
+			inc := t.Includes[idx]
+			if len(parts) >= 2 && semantic.IDLPrefix(inc.Path) != parts[0] {
+				// `Typedef.VALUE` through a typedef of an included enum is written without the include prefix
+				if !(v.Extra.IsEnum && len(parts) == 2) {
+					out = append(out, fmt.Sprintf("%s: value %s Extra.Index %d points at include %q", where, id, idx, inc.Path))
+					return
+				}
+			}
+			if inc.Reference == nil {
+				out = append(out, fmt.Sprintf("%s: value %s: include %q not parsed", where, id, inc.Path))
+				return
+			}
+			found := false
+			if v.Extra.IsEnum {
+				// the enum may sit behind a typedef of the included file, in a file that one includes
+				var look func(a *parser.Thrift, depth int)
+				look = func(a *parser.Thrift, depth int) {
+					if a == nil || depth > 4 {
+						return
+					}
+					for _, e := range a.Enums {
+						for _, ev := range e.Values {
+							if ev.Name == v.Extra.Name {
+								found = true
+							}
+						}
+					}
+					for _, i2 := range a.Includes {
+						look(i2.Reference, depth+1)
+					}
+				}
+				look(inc.Reference, 0)
+			} else {
+				for _, c := range inc.Reference.Constants {
+					if c.Name == v.Extra.Name {
+						found = true
+					}
+				}
+			}
+			if !found {
+				out = append(out, fmt.Sprintf("%s: value %s not defined in include %q", where, id, inc.Path))
+			}
+		}
 		for _, d := range t.Typedefs {
 			chk("typedef "+d.Alias, d.Type)
 		}
 		for _, d := range t.Constants {
 			chk("const "+d.Name, d.Type)
+			chkVal("const "+d.Name, d.Value)
 		}
 		for _, s := range t.GetStructLikes() {
 			for _, f := range s.Fields {
 				chk(s.Name+"."+f.Name, f.Type)
+				chkVal(s.Name+"."+f.Name+" default", f.Default)
 			}
 		}
 		for _, s := range t.Services {
